@@ -3,7 +3,7 @@ import Driver.Sexp
 import Dawgs.Spec.C10
 /-! C10 model driver (raw lines, fields separated by TAB).
 
-  mode fixed | mode current          switch between `emitFixed` and `emit`            -> ok
+  mode fixed | mode current          switch between `emit` (format.go as it is) and `emitOld` (before the C10 fixes)            -> ok
   e [fixed|current] <M> <R>          (mode may also be given per line)
                                      M = the where-expression of the model the text was rendered from,
                                      R = the where-expression the REAL parser built from the REAL text (or `none`)
@@ -301,7 +301,7 @@ def answerP (a : Expr) (rk : Option (List String)) (m : Option Expr) : String :=
 structure St where
   fixed : Bool := false
 
-def emitter (st : St) : Expr → List Tok := if st.fixed then emitFixed else emit
+def emitter (st : St) : Expr → List Tok := if st.fixed then emit else emitOld
 
 /-- the smallest set of repairs (in a fixed order) under which `m` round-trips: attributes a failure to a defect -/
 def needs (m : Expr) : String :=
